@@ -279,6 +279,23 @@ def main():
                     disc += 1
                 else:
                     recs.append(r)
+        for _ in range(job.get("count", 0) // 3):
+            # far from zero: spans down to a millionth of the end points' magnitude (the small-span edge of the quantifier),
+            # where tick labels need 7-9 significant digits
+            mag = 10.0 ** rng.uniform(-3, 9) * rng.choice([1, 1, -1])
+            span = abs(mag) * 10.0 ** -rng.uniform(3.5, 6)
+            lo = mag * rng.uniform(0.5, 1.0)
+            if rng.random() < 0.3:
+                lo = float(int(lo)) + 0.5 if abs(lo) > 10 else lo
+            m = rng.choice([None, 1, 2, 3, 5, 10, 20])
+            d0, d1 = (lo, lo + span) if rng.random() < 0.7 else (lo + span, lo)
+            for fn in (ticks_record, nice_record):
+                r = fn(d0, d1, m)
+                if r is None:
+                    disc += 1
+                else:
+                    r["m"] = 10 if m is None else m
+                    recs.append(r)
         for _ in range(job.get("count", 0)):
             mag = 10.0 ** rng.uniform(-6, 9)
             span = mag * 10.0 ** rng.uniform(-3.5, 1.5)
